@@ -10,4 +10,9 @@ for g in ('options', 'faults', 'dispatch', 'decide'):
         getattr(py2lean, 'gen_' + g)()
     except Exception as e:
         print('translate %s: %s' % (g, e)); rc = 1
+try:
+    import cwrap2lean
+    cwrap2lean.gen_blas_driver(cwrap2lean.gen_blas_safety())
+except Exception as e:
+    print('translate cwrap2lean: %s' % e); rc = 1
 sys.exit(rc)
